@@ -1,6 +1,7 @@
 package main
 
 import (
+	"bytes"
 	"errors"
 	"fmt"
 	"io"
@@ -108,6 +109,32 @@ func drainExpect(r io.Reader, limit int, fault error) (data []byte, end string) 
 	return data, "none"
 }
 
+var interposeTurn int
+var interposeFiles map[string][][]byte
+
+// interposed returns two other valid files for the loader (longer and shorter ones), built once
+// from a private PRNG so that the main case stream is not perturbed.
+func interposed(name string) [][]byte {
+	if interposeFiles == nil {
+		interposeFiles = map[string][][]byte{}
+		r := newRng(0xfeed)
+		for _, small := range []bool{true, false} {
+			for _, f := range seedFiles(r, small) {
+				interposeFiles[f.format] = append(interposeFiles[f.format], f.data)
+			}
+		}
+	}
+	fm := name
+	if fm == "auto" {
+		fm = []string{"png", "jpeg", "webp"}[interposeTurn%3]
+	}
+	fs := interposeFiles[fm]
+	if len(fs) == 0 {
+		return nil
+	}
+	return [][]byte{fs[interposeTurn%len(fs)], fs[(interposeTurn/3+1)%len(fs)]}
+}
+
 type loadxResult struct {
 	out    string // canonical line, as the model prints it
 	meta   string // "ok ..." / "err"
@@ -130,6 +157,19 @@ func runLoadx(name string, data []byte, sched []int, fault bool, eofWithData boo
 	if p != nil || rest == nil {
 		res.out = res.meta + " nil-stream"
 		return res
+	}
+	// every third case: before the returned stream is drained, another image goes through the same
+	// loader (and through auto) and is drained — a stream must keep replaying its own input
+	interposeTurn++
+	if interposeTurn%3 == 0 {
+		for _, other := range interposed(name) {
+			for _, ld := range []string{name, "auto"} {
+				_, rest2, _, p2 := safeLoad(loaders[ld], bytes.NewReader(other))
+				if p2 == nil && rest2 != nil {
+					drain(rest2, len(other)+16)
+				}
+			}
+		}
 	}
 	func() {
 		defer func() {
